@@ -5,10 +5,10 @@ CONSTANTS
   Batches = {"b1"}
   Snaps = {"s1"}
   MaxOps = 2
-  MaxLen = 5
+  MaxLen = 4
   Collecting = TRUE
   Syncs = {FALSE}
-  InitDBs <- Init2
+  InitDBs <- Init3
   Quiet = FALSE
 INIT Init
 NEXT Next
